@@ -525,6 +525,51 @@ func mapIsMade(v ssa.Value, seen map[ssa.Value]bool) (bool, string) {
 		if fv, ok := x.X.(*ssa.FreeVar); ok {
 			return true, "captured map variable " + fv.Name() + " (made by the enclosing function; checked there)"
 		}
+		// a map-typed field of a local struct that is built in place (`km := T{M: make(..)}; km.M[k] = v`): every store
+		// into that field of that variable is a made map, at least one of them dominates the load, and the variable's
+		// address goes nowhere but into field accesses and whole loads
+		if fa, ok := x.X.(*ssa.FieldAddr); ok {
+			if a, ok := fa.X.(*ssa.Alloc); ok && a.Referrers() != nil {
+				n, dom := 0, false
+				for _, r := range *a.Referrers() {
+					switch y := r.(type) {
+					case *ssa.FieldAddr:
+						if y.Field != fa.Field || y.Referrers() == nil {
+							continue
+						}
+						for _, rr := range *y.Referrers() {
+							switch z := rr.(type) {
+							case *ssa.Store:
+								if z.Addr != y {
+									return false, "the field's address is stored somewhere"
+								}
+								n++
+								if ok, why := mapIsMade(z.Val, seen); !ok {
+									return false, why
+								}
+								if z.Block().Dominates(x.Block()) {
+									dom = true
+								}
+							case *ssa.UnOp, *ssa.DebugRef:
+							default:
+								return false, "the field's address is used for more than loads and stores"
+							}
+						}
+					case *ssa.UnOp, *ssa.DebugRef:
+					case *ssa.Store:
+						if y.Addr == a {
+							return false, "the struct variable is assigned as a whole"
+						}
+						return false, "the struct variable's address is stored somewhere"
+					default:
+						return false, "the struct variable's address escapes"
+					}
+				}
+				if n > 0 && dom {
+					return true, "field of a local struct built in place, only assigned made maps"
+				}
+			}
+		}
 	case *ssa.FreeVar:
 		return true, "captured map (made by the enclosing function)"
 	case *ssa.Parameter:
